@@ -144,6 +144,7 @@ impl Chains {
     }
 }
 
+#[derive(Clone)]
 pub struct Replica {
     pub store: MemStore,
     pub logs: Logs<LogIdT>,
@@ -192,6 +193,26 @@ pub fn build(chains: &Chains, cfg: &Config, side: usize) -> Replica {
         }
     }
     Replica { store, logs, listed, stored }
+}
+
+/// A replica built once per configuration; `instantiate` gives a fresh store with the same
+/// committed data (much cheaper than re-encoding every operation per execution).
+pub struct Template {
+    data: refmodel::memstore::Data,
+    rep: Replica,
+}
+
+pub fn template(chains: &Chains, cfg: &Config, side: usize) -> Template {
+    let rep = build(chains, cfg, side);
+    Template { data: rep.store.dump(), rep }
+}
+
+impl Template {
+    pub fn instantiate(&self) -> Replica {
+        let store = MemStore::new();
+        store.mutate_committed(|d| *d = self.data.clone());
+        Replica { store, logs: self.rep.logs.clone(), listed: self.rep.listed.clone(), stored: self.rep.stored.clone() }
+    }
 }
 
 pub fn describe_side(cfg: &Config, side: usize) -> String {
